@@ -107,14 +107,18 @@ def run_shard(ctx):
         run_one(ctx, e, bytes(d), 'anm', e['game'], None, 'extract', 'mutant', {'kind': 'directed-image-offsets', 'offset_x': 3600, 'offset_y': 3600})
     # directed: every argument word of every instruction of the modern-ECL files (the only format with length-prefixed strings inside
     # argument blobs) set to a value just past / far past what is left of the blob
-    jobs = []
+    jobs = []; first = []
     for e in [e for e in corp if e['tool'] == 'ecl' and e['data'][:4] == b'SCPT']:
         for (pos, ln) in e['regions']:
             for wq in range(pos, pos + ln - 3, 4):
                 left = pos + ln - wq - 4
-                for v in (left + 1, 0x40, 0x7fffffff): jobs.append((e, wq, v))
+                cur = int.from_bytes(e['data'][wq:wq + 4], 'little')
+                # a word whose value could be a length of what follows it goes first (length prefixes, counts)
+                (first if 1 <= cur <= left else jobs).extend((e, wq, v) for v in (left + 1, 0x40, 0x7fffffff))
     cap = 60 if q else 500            # per shard (each shard generates its own corpus)
+    if len(first) > 2 * cap: first = r.sample(first, 2 * cap)
     if len(jobs) > cap: jobs = r.sample(jobs, cap)
+    jobs = first + jobs
     for i, (e, q2, v) in enumerate(jobs):
         d = bytearray(e['data']); old = int.from_bytes(d[q2:q2 + 4], 'little'); d[q2:q2 + 4] = v.to_bytes(4, 'little')
         run_one(ctx, e, bytes(d), 'ecl', e['game'], None, 'decompile', 'mutant', {'kind': 'directed-argword', 'pos': q2, 'old': old, 'new': v}); ctx.count('argword_mutants')
